@@ -12,7 +12,7 @@ for f in /verif/bounded/$pkg/*.go; do
   printf '"%s": "%s"' "$repo/pkg/go/$pkg/zz_verif_$(basename $f)" "$f" >> $tmp/ov.json
 done
 printf '}}' >> $tmp/ov.json
-(cd $repo/pkg/go/$pkg && go test -tags verif -overlay $tmp/ov.json -vet=off -count=1 -timeout 1200s -run "$rx" -v . 2>&1)
+(cd $repo/pkg/go/$pkg && go test -tags verif -overlay $tmp/ov.json -vet=off -count=1 -timeout ${VERIF_BOUNDED_TIMEOUT:-900s} -run "$rx" -v . 2>&1)
 rc=$?
 rm -rf $tmp
 exit $rc
